@@ -1,0 +1,35 @@
+//go:build verif
+
+package staking
+
+// Contracts for the deductive checker in /verif (comment-only; compiled only with -tags verif).
+// C16, query side: allowance(grantee, granter, method) reports the grant the authz module stores.
+// Lib specs: /verif/specs/c04/62_authz.spec (abstract grant store), 66_approval.spec (abi.MaxUint256).
+
+/*@
+specfunc MaxU256q() int = 115792089237316195423570985008687907853269984665640564039457584007913129639935
+
+// allowance(grantee, granter, method) -> the remaining amount of the staking grant stored under (grantee, granter, method):
+// 0 when there is no live grant, 2^256-1 for a grant without limit, the limit otherwise; a live grant of another kind is refused.
+// One read of the grant store with exactly the decoded key, in the caller's context; nothing is written (frame).
+func (Precompile).Allowance
+    params p, ctx, method, contract, input
+    requires wf: method != nil
+    let grantee = dyn(input[0], Address)
+    let granter = dyn(input[1], Address)
+    let msgurl = dyn(input[2], string)
+    let okargs = len(input) == 3 && isdyn(input[0], Address) && grantee != zero_EvmAddr && isdyn(input[1], Address) && granter != zero_EvmAddr
+            && isdyn(input[2], string) && msgurl != ""
+    let key = gkey(addr_bytes(grantee), addr_bytes(granter), msgurl)
+    let live = GLive(g_kind, g_exp, key, ctx)
+    let stake = g_kind[key] == StakeTag()
+    let amount = ite(!live, 0, ite(g_limited[key], g_limit[key], MaxU256q()))
+    call GetAuthorization requires named: gte == addr_bytes(grantee) && gtr == addr_bytes(granter) && url == msgurl && kctx == old(ctx) && k == p.AuthzKeeper
+    call Arguments.Pack requires packed: arguments == method.Outputs && len(args) == 1 && isdyn(args[0], *BigInt) && bigis(dyn(args[0], *BigInt), amount)
+    ensures refused: !okargs ==> result.1 != nil && len(result.0) == 0
+    ensures other_kind: okargs && live && !stake ==> result.1 != nil && len(result.0) == 0
+    // (the Pack call sites are numbered in the order the engine reaches them: 1 = limited grant, 2 = grant without limit, 3 = no grant)
+    ensures reported_none: okargs && !live ==> result.0 == ret(Pack, 3, 0) && result.1 == ret(Pack, 3, 1)
+    ensures reported_unlimited: okargs && live && stake && !g_limited[key] ==> result.0 == ret(Pack, 2, 0) && result.1 == ret(Pack, 2, 1)
+    ensures reported_limited: okargs && live && stake && g_limited[key] ==> result.0 == ret(Pack, 1, 0) && result.1 == ret(Pack, 1, 1)
+@*/
